@@ -24,16 +24,16 @@ type C07Plan struct {
 	HonestLen   int             `json:"honestLen"`
 	Checkpoints []int           `json:"checkpoints"`
 	DisableCP   bool            `json:"disableCP"`
-	Kind        string          `json:"kind"`    // forbidden | checkpoint
-	ForkAt      int             `json:"forkAt"`  // the bad chain leaves the honest chain after this height
-	BadLen      int             `json:"badLen"`  // length of the bad branch
-	Offset      int             `json:"offset"`  // forbidden: index of the forbidden header within the bad branch
-	BadCap      int             `json:"badCap"`  // reply cap of the bad node
+	Kind        string          `json:"kind"`   // forbidden | checkpoint
+	ForkAt      int             `json:"forkAt"` // the bad chain leaves the honest chain after this height
+	BadLen      int             `json:"badLen"` // length of the bad branch
+	Offset      int             `json:"offset"` // forbidden: index of the forbidden header within the bad branch
+	BadCap      int             `json:"badCap"` // reply cap of the bad node
 	BadSpec     simnet.NodeSpec `json:"badSpec"`
 	Honest      int             `json:"honest"` // number of honest nodes (1-2)
 	HonestCap   int             `json:"honestCap"`
-	BadFirst    bool            `json:"badFirst"`    // the bad node is the only node until its offence was observed (it is "chosen first")
-	FinalAnn    bool            `json:"finalAnn"`    // an honest node announces a new block at the end
+	BadFirst    bool            `json:"badFirst"` // the bad node is the only node until its offence was observed (it is "chosen first")
+	FinalAnn    bool            `json:"finalAnn"` // an honest node announces a new block at the end
 	BanMs       int             `json:"banMs"`
 	// Strict: after a checkpoint offence, demand convergence on the honest chain and that no contradicting header stays
 	// on the longest chain. The search pass sets it only where the open finding
@@ -42,8 +42,8 @@ type C07Plan struct {
 	// IgnoreStop: the bad node's replies do not end at the requested stop hash (a matching checkpoint header then
 	// arrives in the middle of a batch)
 	IgnoreStop bool `json:"ignoreStop"`
-	VariantB bool `json:"variantB,omitempty"`
-	WaitMs int  `json:"waitMs,omitempty"` // replay files of known findings: one attempt with this bound
+	VariantB   bool `json:"variantB,omitempty"`
+	WaitMs     int  `json:"waitMs,omitempty"` // replay files of known findings: one attempt with this bound
 }
 
 func runC07(p *C07Plan) (*stats.Case, error) {
